@@ -28,7 +28,7 @@
    [Err]; the correspondence checks exactly that on every such case. *)
 From Coq Require Import Lia.
 (* source tie by translation: the lemmas of these files are obligations of this property *)
-From Soy Require Import Proofs.SourceTieData Proofs.SourceTieHtml Proofs.SourceTieScope Proofs.SourceTieRegistry Proofs.SourceTieDirectives.
+From Soy Require Import Proofs.SourceTieData Proofs.SourceTieHtml Proofs.SourceTieScope Proofs.SourceTieRegistry Proofs.SourceTieDirectives Proofs.SourceTieWordBreaks.
 From Soy Require Import Model.Bytes Model.Num Model.Values Model.Outcome Model.Ast
   Model.Escape Model.Directives Model.Print Generated.Tables Model.Interp Model.InterpSafety Model.Globals
   Model.Compile Model.ExprPipeline Model.InterpJson Spec.Safety
